@@ -544,4 +544,95 @@ std::string sig_describe(Ints const &c)
 char const *const sig_rule = "history contains a signal move-assignment whose destination had >= 2 connections, followed by dropping one of them and a call";
 Reg const r_sig{"signal_histories", Kind::random, sig_rule, [] { run_random(*g_cur.sec, {12000, 40}, {40000, 52}); }, sig_case_t<false>, sig_describe};
 Reg const r_usig{"signal_unregister_histories", Kind::random, sig_rule, [] { run_random(*g_cur.sec, {12000, 40}, {40000, 52}); }, sig_case_t<true>, sig_describe};
+
+// ------------------------------------------------------------------ arguments and throwing callbacks
+// (a) A signal whose argument is a class type taken BY VALUE: every live callback receives the
+// argument the signal was called with (the first callback must not be handed the original to move
+// from), and the fold combines the results computed from it.
+// (b) A callback that throws: the exception leaves the call, and afterwards the signal still holds
+// exactly its live connections - a later call invokes all of them again, in order.
+struct callback_failure
+{
+};
+template <bool Unregister>
+void args_case(std::size_t n, std::size_t thrower, bool void_signal)
+{
+  using sig_vec = std::conditional_t<Unregister, fcppt::signal::object<int(std::vector<int>), fcppt::signal::unregister::base>, fcppt::signal::object<int(std::vector<int>)>>;
+  using sig_vvec = std::conditional_t<Unregister, fcppt::signal::object<void(std::vector<int>), fcppt::signal::unregister::base>, fcppt::signal::object<void(std::vector<int>)>>;
+  count(n >= 2);
+  std::vector<int> const arg{4, 5, 6};
+  std::vector<std::pair<int, std::size_t>> seen; // (callback id, size of the argument it received)
+  bool armed = thrower < n;
+  std::vector<fcppt::signal::auto_connection> conns;
+  auto const check_seen = [&](char const *when, std::size_t expect_count) {
+    bool ok = seen.size() == expect_count;
+    for (std::size_t i = 0; ok && i < seen.size(); ++i) ok = seen[i].first == static_cast<int>(i) && seen[i].second == arg.size();
+    if (!ok)
+    {
+      std::string t;
+      for (auto const &p : seen) t += "(" + std::to_string(p.first) + ":" + std::to_string(p.second) + ") ";
+      fail(std::string("signal|call|") + when, std::string(void_signal ? "void" : "int") + " signal of " + std::to_string(n) + " connections called with a vector of 3 elements: callbacks (id:size of the argument received) " + t + ", expected ids 0.." + std::to_string(expect_count) + " each with 3 elements");
+    }
+  };
+  if (void_signal)
+  {
+    sig_vvec sig;
+    for (std::size_t i = 0; i < n; ++i)
+    {
+      typename sig_vvec::function f{[&seen, &armed, thrower, i](std::vector<int> v) {
+        seen.emplace_back(static_cast<int>(i), v.size());
+        if (armed && i == thrower) { armed = false; throw callback_failure{}; }
+      }};
+      if constexpr (Unregister) conns.push_back(sig.connect(std::move(f), fcppt::signal::unregister::function{[] {}}));
+      else conns.push_back(sig.connect(std::move(f)));
+    }
+    bool threw = false;
+    try { sig(arg); } catch (callback_failure const &) { threw = true; }
+    if (threw != (thrower < n)) fail("signal|call|exception-swallowed", "the exception of a callback did not leave the call");
+    check_seen(threw ? "argument-or-order|before-the-throwing-callback" : "argument-or-order", threw ? thrower + 1 : n);
+    seen.clear();
+    sig(arg); // nobody throws any more: every live connection again
+    check_seen("connections-after-a-throwing-callback", n);
+    if (sig.empty() != (n == 0)) fail("signal|empty|after-a-throwing-callback", "empty() is wrong after a call in which a callback threw");
+  }
+  else
+  {
+    sig_vec sig(typename sig_vec::combiner_function{[](int a, int b) { return a * 3 + b; }});
+    for (std::size_t i = 0; i < n; ++i)
+    {
+      typename sig_vec::function f{[&seen, i](std::vector<int> v) {
+        seen.emplace_back(static_cast<int>(i), v.size());
+        int s = static_cast<int>(i);
+        for (int x : v) s += x;
+        return s;
+      }};
+      if constexpr (Unregister) conns.push_back(sig.connect(std::move(f), fcppt::signal::unregister::function{[] {}}));
+      else conns.push_back(sig.connect(std::move(f)));
+    }
+    int const got = sig(typename sig_vec::initial_value{2}, arg);
+    int want = 2;
+    for (std::size_t i = 0; i < n; ++i) want = want * 3 + (15 + static_cast<int>(i));
+    check_seen("argument-or-order", n);
+    if (got != want) fail("signal|call|combined-result|class-type-argument", "result " + std::to_string(got) + ", the left fold over callbacks that all see the same argument gives " + std::to_string(want));
+  }
+}
+void args_one(Ints const &c)
+{
+  std::size_t const n = static_cast<std::size_t>(static_cast<u64>(c.at(0)) % 5), thrower = static_cast<std::size_t>(static_cast<u64>(c.at(1)) % 6);
+  bool const vs = c.at(2) % 2 != 0, unreg = c.at(3) % 2 != 0;
+  if (unreg) args_case<true>(n, thrower, vs);
+  else args_case<false>(n, thrower, vs);
+}
+Reg const r_args{"signal_arguments_and_throwing_callbacks", Kind::exhaustive, "at least two connections",
+                 [] {
+                   for (i64 n = 0; n < 5; ++n)
+                     for (i64 t = 0; t < 6; ++t)
+                       for (i64 v = 0; v < 2; ++v)
+                         for (i64 u = 0; u < 2; ++u) { cur4(n, t, v, u); args_one({n, t, v, u}); }
+                 },
+                 args_one,
+                 [](Ints const &c) {
+                   return std::string(c.at(3) % 2 != 0 ? "unregister-base " : "") + (c.at(2) % 2 != 0 ? "void" : "int") + "(std::vector<int>) signal with " + std::to_string(static_cast<u64>(c.at(0)) % 5) + " connections" +
+                          (c.at(2) % 2 != 0 ? ", callback #" + std::to_string(static_cast<u64>(c.at(1)) % 6) + " throws once (none if >= the number of connections)" : "");
+                 }};
 }
